@@ -87,6 +87,35 @@ pub(crate) fn inv(c: &Channel) -> bool {
     true
 }
 
+/// a concrete end shape: unclaimed, claimed by connection `tag`, closed
+#[derive(Clone, Copy, PartialEq, Eq)]
+pub(crate) enum EndSpec {
+    U,
+    C(u8),
+    X,
+}
+
+fn mk_end(e: EndSpec) -> ChannelEndState {
+    match e {
+        EndSpec::U => ChannelEndState::Unclaimed,
+        EndSpec::C(o) => ChannelEndState::Claimed {
+            owner: ConnectionId(o),
+            capacity: kani::any(),
+        },
+        EndSpec::X => ChannelEndState::Closed,
+    }
+}
+
+/// channel with the given end shapes and arbitrary capacities that satisfy the invariant
+pub(crate) fn mk_channel(s: EndSpec, r: EndSpec) -> Channel {
+    let c = Channel {
+        sender: mk_end(s),
+        receiver: mk_end(r),
+    };
+    kani::assume(inv(&c));
+    c
+}
+
 pub(crate) fn any_channel() -> Channel {
     let c = Channel {
         sender: any_end_state(),
